@@ -67,7 +67,7 @@ CONF["C05"] = {
     "level_note": "Trusted: harness/fitmodel.Parse and the bitwise CRC; the mapping File value -> wire bytes (strings cut to length-1 and NUL padded, arrays cut/padded to the profile length, local times as wall-clock seconds). An Encode error with nothing written is outside this property (counted).",
     "quick": {"checks": 3000, "timeout": 300, "shrinktime": "10s"},
     "thorough": {"checks": 100000, "timeout": 1500, "shards": 8, "shrinktime": "30s"},
-    "rule": "big-file: activities with 2300 and 4700 records (data sections beyond 64 and 128 KiB) in both byte orders; local timestamps are drawn in fixed zones and in ten tz-database Locations (daylight saving, 30-minute shifts, changed standard offsets); strings include U+FFFD and the first/last code point of each UTF-8 length. one file in six has a long slot (256-600 sparse messages, a field of their own on messages 255/256/511/512/first/last). files: rapid GenFile (file type, header size, protocol, byte order, 0..4 messages per slice slot, each field set with probability 25-50% to boundary-biased values, strings and arrays sometimes longer than the profile length); non-trivial = a slice slot holding at least 2 messages with different sets of set fields (group definition is a proper union); distinct by fingerprint of the spec. empty+all-invalid: every file type x header size x byte order, empty and with one all-invalid message per slot.",
+    "rule": "two files in five are encoded right after an Encode call that fails (the same File with a non-UTF-8 string, or into a writer that refuses data after 9 bytes). big-file: activities with 2300 and 4700 records (data sections beyond 64 and 128 KiB) in both byte orders; local timestamps are drawn in fixed zones and in ten tz-database Locations (daylight saving, 30-minute shifts, changed standard offsets); strings include U+FFFD and the first/last code point of each UTF-8 length. one file in six has a long slot (256-600 sparse messages, a field of their own on messages 255/256/511/512/first/last). files: rapid GenFile (file type, header size, protocol, byte order, 0..4 messages per slice slot, each field set with probability 25-50% to boundary-biased values, strings and arrays sometimes longer than the profile length); non-trivial = a slice slot holding at least 2 messages with different sets of set fields (group definition is a proper union); distinct by fingerprint of the spec. empty+all-invalid: every file type x header size x byte order, empty and with one all-invalid message per slot.",
     "assumptions": ["fitmodel.Parse implements the FIT file grammar", "Files are built with NewHeader/NewFile/NewXMsg and exported fields only"],
 }
 CONF["C06"] = {
@@ -149,7 +149,7 @@ CONF["C13"] = {
     "level_note": "Trusted: reference interpreter slot model; messages are chosen among those the file type holds so that values are observable.",
     "quick": {"checks": 1200, "timeout": 300, "shrinktime": "10s", "steps": 40},
     "thorough": {"checks": 40000, "timeout": 1800, "shards": 8, "shrinktime": "30s", "steps": 60},
-    "rule": "long-lived: up to 30 (thorough 400) streams in which 1-3 local types are defined once and used throughout while the other local types are redefined until the file holds 800..12500 field definitions; non-trivial = more than 4096 field definitions in one file. machine actions also include redefineVariant (same definition with only the byte order flipped / one field dropped / field list reversed); chained-undefined: 20 two-file chains in which the second file uses a local type only the first defined. machine: rapid t.Repeat over actions define(local 0-15), data(defined local), compressedData(defined local 0-3), dataUndefined (ends the history), invariant = decode-and-compare after each step (each invariant run is one evaluation); non-trivial history = at least 3 local types defined, a redefinition that changes message or byte order, and a compressed header on local type 1-3; distinct by fingerprint of the final stream. undefined: the 16+4 never-defined local types. slot-independence: one inserted definition per history.",
+    "rule": "undefined also covers the first data record of a file: all 16x15 (file_id local type, other local type) pairs with normal headers and the compressed forms. long-lived: up to 30 (thorough 400) streams in which 1-3 local types are defined once and used throughout while the other local types are redefined until the file holds 800..12500 field definitions; non-trivial = more than 4096 field definitions in one file. machine actions also include redefineVariant (same definition with only the byte order flipped / one field dropped / field list reversed); chained-undefined: 20 two-file chains in which the second file uses a local type only the first defined. machine: rapid t.Repeat over actions define(local 0-15), data(defined local), compressedData(defined local 0-3), dataUndefined (ends the history), invariant = decode-and-compare after each step (each invariant run is one evaluation); non-trivial history = at least 3 local types defined, a redefinition that changes message or byte order, and a compressed header on local type 1-3; distinct by fingerprint of the final stream. undefined: the 16+4 never-defined local types. slot-independence: one inserted definition per history.",
     "assumptions": ["reference interpreter"],
 }
 CONF["C16"] = {
@@ -198,7 +198,7 @@ CONF["C15"] = {
     "level_note": "Trusted: the hook copies the table entries verbatim; fitmodel base type table. The declared SDK 21.115 workbook is not available offline: 756 of the 779 entries are cross-checked against 21.40, the other 23 only for internal consistency (stated in the evidence).",
     "quick": {"checks": 1, "timeout": 300},
     "thorough": {"checks": 1, "timeout": 600},
-    "rule": "every table entry is a distinct case and counted non-trivial (it exercises index, type, invalid value and size rules); lookups: all 16.7M (message number, field number) pairs; dynamic: one single-field stream per entry and byte order, one all-fields File per file type and byte order; sdk: one comparison per enabled workbook row.",
+    "rule": "dynamic also decodes, for every known message number, two compressed-timestamp records after a full timestamp, with a zero-field definition and with the message's first field at full width (big-endian). every table entry is a distinct case and counted non-trivial (it exercises index, type, invalid value and size rules); lookups: all 16.7M (message number, field number) pairs; dynamic: one single-field stream per entry and byte order, one all-fields File per file type and byte order; sdk: one comparison per enabled workbook row.",
     "assumptions": ["hook export is faithful", "independent workbook reader (harness/wb) reads the Messages and Types sheets correctly (it agrees with the generator's goldens on all five workbooks)"],
 }
 CONF["C20"] = {
@@ -211,7 +211,7 @@ CONF["C20"] = {
     "level_note": "Trusted: go/types constant evaluation; 'name without the type prefix' = strings.TrimPrefix(constant name, type name). Bool (types_man.go) is hand-written and outside 'generated FIT type'.",
     "quick": {"checks": 50, "timeout": 300},
     "thorough": {"checks": 5000, "timeout": 900},
-    "rule": "constants: each (type, named constant) once; other-values: every non-constant value of 8-bit types, +-1 around constants, 2^k and 2^k-1 for wider types - distinct by construction. wide-values: 200 rapid-drawn (type, value) pairs per rapid case, half of them within 3 of a constant; distinct by fingerprint. regeneration: one run of the repository's stringer.",
+    "rule": "concurrent: 3 (thorough 40) child processes in which 8 goroutines print every value of every 8- and 16-bit type and the constants +-1 and powers of two of wider types at the same time, as the first String calls of the process; a wrong string or a crash of the child is a violation. constants: each (type, named constant) once; other-values: every non-constant value of 8-bit types, +-1 around constants, 2^k and 2^k-1 for wider types - distinct by construction. wide-values: 200 rapid-drawn (type, value) pairs per rapid case, half of them within 3 of a constant; distinct by fingerprint. regeneration: one run of the repository's stringer.",
     "assumptions": ["go/types evaluates the constants as the compiler does"],
 }
 
@@ -223,7 +223,7 @@ CONF["C08"] = {
     "level_note": "Trusted: the digest covers everything observable through the public surface. record.distance derived from compressed_speed_distance is left out while finding K1 is open (K1 is reproduced by a dedicated two-call history on every run).",
     "quick": {"checks": 150, "timeout": 400, "shrinktime": "10s", "steps": 30},
     "thorough": {"checks": 4000, "timeout": 2400, "shards": 8, "shrinktime": "30s", "steps": 60},
-    "rule": "the pool also holds 20 inputs that are rejected at each decoding stage (cut inside the header after a legal size byte, at its end, inside the records, inside the CRC; illegal size byte; wrong CRC) and the call kind decodefault (Decode through a reader that fails with an error of its own, different per input, after 1..200 bytes; the result records the text and errors.Is against that cause). call kinds also include encodebad (a File with a non-UTF-8 string: Encode fails part-way) and encodefw (a writer that refuses the data); decode-with-options calls share one package-level options slice; the pool also holds 8 streams whose local timestamps differ in zone offset by seconds, out-of-domain Files and byte arrays longer/shorter than the profile length. pool (drawn from the seed): repository files up to 6 kB, 16 generated streams, 4 streams with accumulating component sources, 4 chains, 12 generated Files. histories: rapid t.Repeat over the 6 call kinds + repeatLast with drawn inputs, each step compared with its fresh-process baseline (one evaluation per step); non-trivial = a history of at least 3 calls in which a call is preceded by a different call; distinct by fingerprint of the op list. encode-across-processes: every (File, order) in a second fresh process.",
+    "rule": "call kinds chainedopts (DecodeChained with the shared option values) and decodelogger (Decode with a debug logger whose output is discarded). the pool also holds 20 inputs that are rejected at each decoding stage (cut inside the header after a legal size byte, at its end, inside the records, inside the CRC; illegal size byte; wrong CRC) and the call kind decodefault (Decode through a reader that fails with an error of its own, different per input, after 1..200 bytes; the result records the text and errors.Is against that cause). call kinds also include encodebad (a File with a non-UTF-8 string: Encode fails part-way) and encodefw (a writer that refuses the data); decode-with-options calls share one package-level options slice; the pool also holds 8 streams whose local timestamps differ in zone offset by seconds, out-of-domain Files and byte arrays longer/shorter than the profile length. pool (drawn from the seed): repository files up to 6 kB, 16 generated streams, 4 streams with accumulating component sources, 4 chains, 12 generated Files. histories: rapid t.Repeat over the 6 call kinds + repeatLast with drawn inputs, each step compared with its fresh-process baseline (one evaluation per step); non-trivial = a history of at least 3 calls in which a call is preceded by a different call; distinct by fingerprint of the op list. encode-across-processes: every (File, order) in a second fresh process.",
     "assumptions": ["a freshly started process has no library state"],
 }
 CONF["C09"] = {
